@@ -132,7 +132,7 @@ def check_bond(ctx, p, key, variant, sw, cl, cfg):
         ctx.ob("R10.2", key + "/one stake write", False, detail="%d STAKE writes on a bond path" % len(sw), sites=[e.site for _, e in sw])
         return
     i, e = sw[0]
-    d = cell_delta(e)
+    d = cell_delta(e, path=p)
     if d.nf is None or d.nf.inexact:
         ctx.ob("R10.2", key + "/stake delta", False, detail=d.problem or "inexact %s" % d.nf.inexact, sites=[e.site])
         return
@@ -179,7 +179,7 @@ def check_unbond(ctx, p, key, sw, cl, cfg):
         prob = "%d STAKE writes on an unbond path" % len(sw)
     else:
         i, e = sw[0]
-        d = cell_delta(e)
+        d = cell_delta(e, path=p)
         if d.nf is None or d.nf.inexact:
             prob = d.problem or "inexact %s" % d.nf.inexact
         elif e.key != SENDER:
